@@ -451,6 +451,22 @@ class Engine:
                 return VTuple(items)
             if isinstance(node, ast.Constant):
                 return self.py_constant(node.value)
+            if isinstance(node, ast.Dict) and all(isinstance(k, ast.Constant) for k in node.keys):
+                # {"literal": constant | {} | [] | None ...}: a constant dictionary (only looked up / passed on)
+                d = {}
+                for k, e in zip(node.keys, node.values):
+                    if isinstance(e, ast.Constant):
+                        v = self.py_constant(e.value)
+                    elif isinstance(e, ast.Dict) and not e.keys:
+                        v = VConc({})
+                    elif isinstance(e, (ast.List, ast.Tuple)) and not e.elts:
+                        v = VTuple(())
+                    else:
+                        v = None
+                    if v is None:
+                        return None
+                    d[k.value] = v
+                return VConc(d)
         return None
 
     def py_constant(self, val):
